@@ -256,7 +256,7 @@ func runBehaviour(ctx context.Context, b J, emit func(J)) {
 					line["err"] = err.Error()
 					return
 				}
-				s.tf = v.(types.Object)
+				s.tf = NilEmptyElems(v, step["tf"].(J)).(types.Object)
 			case "CopyTo":
 				var d diag.Diagnostics
 				drainHooks()
